@@ -207,6 +207,15 @@ def run_check(prop, tier, seed, t0, a):
             json.dump(lock, f, indent=1, sort_keys=True)
     if not a.no_deductive and d['outs'] and n_obl == 0:
         failures.append('zero obligations generated')
+    selftest = None
+    if tier == 'thorough' and not a.no_deductive and d['outs']:
+        # deliberate-rewrite self-test of engine + contracts for the functions of this property
+        from selftest import run as st_run
+        selftest = st_run.run(keys={o['key'] for o in d['outs']})
+        for r in selftest.get('results', []):
+            if not r['ok']:
+                failures.append(f'self-test: {r["kind"]} rewrite of {r["function"]} ({r["rewrite"]}) '
+                                + ('still verifies' if r['kind'] == 'break' else f'no longer verifies: {r["failed"] or r["unknown"] or r["error"]}'))
 
     # ---------------- bounded layer
     bounded = None
@@ -273,6 +282,7 @@ def run_check(prop, tier, seed, t0, a):
         obligation_list=obligation_list,
         solver_time_s=round(solver_s, 2),
         bounded={k: v for k, v in (bounded or {}).items() if k not in ('violations', 'samples')} if bounded else None,
+        selftest=selftest,
         known_findings_hit=[k[0] for k in known_hits],
         undecided=undecided, checker_failures=failures,
     )
